@@ -70,7 +70,7 @@ func checkC19(c *Ctx, r *Report) {
 				if x.Kind == "delete" && !(o.typ == "MetadataCache" && f == "inProgress") {
 					viol = fmt.Sprintf("%s: %s deletes from %s.%s: memoised state is dropped (%s)", w.pos(x.Pos), x.Fn, o.typ, f, o.reason)
 				}
-				if x.Kind == "assign" && !strings.Contains(x.Fn, ".New") && !(o.typ == "PackagesFacade" && f == "globbedFiles") {
+				if x.Kind == "assign" && !strings.Contains(x.Fn, ".New") && !(o.typ == "PackagesFacade" && f == "globbedFiles") && !(x.Ins != nil && lazyInitStore(x.Ins)) {
 					viol = fmt.Sprintf("%s: %s re-assigns %s.%s after construction (%s)", w.pos(x.Pos), x.Fn, o.typ, f, o.reason)
 				}
 			}
@@ -189,6 +189,7 @@ func checkC19(c *Ctx, r *Report) {
 type stateWrite struct {
 	Fn, Kind string
 	Pos      token.Pos
+	Ins      ssa.Instruction
 }
 
 // structStateWrites: assignments to owner.field, and inserts/deletes on the map (or
@@ -221,28 +222,28 @@ func (w *World) structStateWrites(owner *types.Named, field string) []stateWrite
 			switch x := ins.(type) {
 			case *ssa.Store:
 				if fa, ok := x.Addr.(*ssa.FieldAddr); ok && isField(structFieldVar(fa.X.Type(), fa.Field)) {
-					out = append(out, stateWrite{fnShort(f), "assign", x.Pos()})
+					out = append(out, stateWrite{fnShort(f), "assign", x.Pos(), x})
 				}
 			case *ssa.MapUpdate:
 				if mapOf(x.Map) {
-					out = append(out, stateWrite{fnShort(f), "insert", x.Pos()})
+					out = append(out, stateWrite{Fn: fnShort(f), Kind: "insert", Pos: x.Pos()})
 				}
 			case *ssa.Call:
 				nm := calleeName(x)
 				if nm == "builtin.delete" && len(x.Call.Args) == 2 && mapOf(x.Call.Args[0]) {
-					out = append(out, stateWrite{fnShort(f), "delete", x.Pos()})
+					out = append(out, stateWrite{Fn: fnShort(f), Kind: "delete", Pos: x.Pos()})
 				}
 				if nm == "builtin.clear" && len(x.Call.Args) == 1 && mapOf(x.Call.Args[0]) {
-					out = append(out, stateWrite{fnShort(f), "delete", x.Pos()})
+					out = append(out, stateWrite{Fn: fnShort(f), Kind: "delete", Pos: x.Pos()})
 				}
 				if strings.HasPrefix(nm, "sync/atomic.Add") && len(x.Call.Args) > 0 {
 					if fa, ok := x.Call.Args[0].(*ssa.FieldAddr); ok && isField(structFieldVar(fa.X.Type(), fa.Field)) {
-						out = append(out, stateWrite{fnShort(f), "insert", x.Pos()})
+						out = append(out, stateWrite{Fn: fnShort(f), Kind: "insert", Pos: x.Pos()})
 					}
 				}
 				if strings.HasPrefix(nm, "sync/atomic.Store") && len(x.Call.Args) > 0 {
 					if fa, ok := x.Call.Args[0].(*ssa.FieldAddr); ok && isField(structFieldVar(fa.X.Type(), fa.Field)) {
-						out = append(out, stateWrite{fnShort(f), "assign", x.Pos()})
+						out = append(out, stateWrite{Fn: fnShort(f), Kind: "assign", Pos: x.Pos()})
 					}
 				}
 			}
@@ -272,11 +273,11 @@ func (w *World) structStateWrites(owner *types.Named, field string) []stateWrite
 					switch y := in2.(type) {
 					case *ssa.MapUpdate:
 						if y.Map == ssa.Value(p) {
-							out = append(out, stateWrite{fnShort(callee), "insert", y.Pos()})
+							out = append(out, stateWrite{Fn: fnShort(callee), Kind: "insert", Pos: y.Pos()})
 						}
 					case *ssa.Call:
 						if calleeName(y) == "builtin.delete" && y.Call.Args[0] == ssa.Value(p) {
-							out = append(out, stateWrite{fnShort(callee), "delete", y.Pos()})
+							out = append(out, stateWrite{Fn: fnShort(callee), Kind: "delete", Pos: y.Pos()})
 						}
 					}
 				})
@@ -572,4 +573,39 @@ func checkNoInPlaceWritesToInputs(c *Ctx, r *Report, clause string, pkgPrefixes 
 		sites = []string{"gleece:0"}
 	}
 	r.add(clause, "alias-write", "no-in-place-write-to-input-slices:"+strings.Join(pkgPrefixes, ","), "reducers and validators never write into a slice they were handed", pkgPrefixes, sites, viol)
+}
+
+// lazyInitStore: `if x.f == nil { x.f = make(...) }` - the field receives a fresh, empty map only
+// where a dominating branch found it nil: nothing that was there is dropped.
+func lazyInitStore(ins ssa.Instruction) bool {
+	st, ok := ins.(*ssa.Store)
+	if !ok {
+		return false
+	}
+	fa, ok := st.Addr.(*ssa.FieldAddr)
+	if !ok {
+		return false
+	}
+	if _, fresh := stripTrivial(st.Val).(*ssa.MakeMap); !fresh {
+		return false
+	}
+	fld := structFieldVar(fa.X.Type(), fa.Field)
+	for _, f := range dominatingFacts(st.Block()) {
+		cnd, pol := unwrapNot(f.Cond, f.Pol)
+		bo, ok := cnd.(*ssa.BinOp)
+		if !ok || !((bo.Op == token.EQL && pol) || (bo.Op == token.NEQ && !pol)) {
+			continue
+		}
+		for _, side := range [][2]ssa.Value{{bo.X, bo.Y}, {bo.Y, bo.X}} {
+			if !isNilConst(side[1]) {
+				continue
+			}
+			if ld, ok := stripTrivial(side[0]).(*ssa.UnOp); ok && ld.Op == token.MUL {
+				if fa2, ok := ld.X.(*ssa.FieldAddr); ok && structFieldVar(fa2.X.Type(), fa2.Field) == fld && fld != nil {
+					return true
+				}
+			}
+		}
+	}
+	return false
 }
